@@ -118,6 +118,14 @@ def run_exec(ctx):
                                                detail=det[0] if det else c["detail"], original=dict(pattern=c["pat"], haystack_hex=c["hay"].hex(), detail=c["detail"])))
         report_violation(ctx, path)
         reported += 1
+    # the harness process itself died (signal): for C06 that is the violation, and the announced run is its input
+    if ctx.pid == "C06":
+        for cr in run_exec_shards.crashes[:2]:
+            path = write_replay(ctx, "input", dict(kind="failing-input", flags=cr["flags"], pattern=decode_pat(cr["pattern_hex"]), pattern_hex=cr["pattern_hex"],
+                                                   haystack_hex="" if cr["hay_hex"] == "-" else cr["hay_hex"], haystack=bytes.fromhex(cr["hay_hex"]).decode("utf8", "replace") if cr["hay_hex"] != "-" else "",
+                                                   start=cr["start"], engine=cr["engine"], no_opt=cr["no_opt"],
+                                                   detail="the harness process was killed by a signal (memory error / abort) while running this search", shard_cmd=cr["shard_cmd"]))
+            report_violation(ctx, path); reported += 1
     # broken ties: model/implementation disagreement or theorem failure
     if mism:
         broken.append("correspondence S4/S5: %d disagreements, first: %s" % (len(mism), mism[0][:300]))
